@@ -246,7 +246,7 @@ pub fn run(tier: Tier, seed: u64) -> i32 {
             }
         }
     }
-    let sessions = tier.pick(96usize, 1500);
+    let sessions = tier.pick(96usize, 3000);
     let res = run_parallel(16, sessions, |sid| {
         let mut acc = Acc::new();
         let mut rng = Rng::stream(seed, 0xC16_0000 + sid as u64);
